@@ -117,18 +117,24 @@ fn cmd_check(args: &[String]) -> i32 {
         let first = execute(prop, Choices::generate(s), os, thorough, false);
         let orig_len = first.choices.len();
         let (min_choices, shrink_runs) = shrink(prop, first.choices.clone(), os, thorough, v, 3000, 60);
-        let fin = execute(prop, Choices::replay(min_choices), os, thorough, true);
-        let fin = if fin.violation.as_ref().map(|x| x.invariant == v.invariant && x.signature == v.signature).unwrap_or(false) {
+        let mut fin = execute(prop, Choices::replay(min_choices), os, thorough, true);
+        while fin.choices.last() == Some(&0) {
+            fin.choices.pop(); // an exhausted replay vector yields 0 anyway
+        }
+        let mut fin = if fin.violation.as_ref().map(|x| x.invariant == v.invariant && x.signature == v.signature).unwrap_or(false) {
             fin
         } else {
             // shrinking lost it (should not happen); fall back to the original vector
             execute(prop, Choices::replay(first.choices.clone()), os, thorough, true)
         };
+        while fin.choices.last() == Some(&0) {
+            fin.choices.pop();
+        }
         if fin.violation.is_none() {
             eprintln!("HARNESS-ERROR: violation {} at run {} did not reproduce from its recorded choices", v.invariant, i);
             return 2;
         }
-        let path = format!("{}/replays/{}-{}-{}.json", vdir, prop.id(), v.invariant.replace('.', "_"), s);
+        let path = format!("{}/replays/{}-{}-{}.json", vdir, prop.id(), v.invariant.chars().map(|c| if c.is_ascii_alphanumeric() { c } else { '_' }).collect::<String>(), s);
         if let Err(e) = write_replay(&path, prop, thorough, s, os, *i, orig_len, shrink_runs, &fin) {
             eprintln!("HARNESS-ERROR: cannot write {}: {}", path, e);
             return 2;
